@@ -431,7 +431,8 @@ fn main() {
             ],
         };
         for cfg in cfgs {
-            let o = vp_net::explore_variant(cfg, &run, false);
+            let dfs = run.tier == Tier::Thorough && cfg.vsends[0] + cfg.vsends[1] >= 3;
+        let o = vp_net::explore_variant(cfg, &run, dfs);
             run.class(&format!("cfg:{}", o.label), || json!({"states": o.states, "stats": o.stats}));
             outcomes.push(o);
         }
